@@ -58,7 +58,7 @@ def instances(tier, seed):
                 parts = [None] if not (min(r1, Hh) - r0 >= 2 and B == nreg) else [0, 1, 2, 3]
                 for part in parts:
                     out.append({"name": "assign-H%d-r%d:%d-%s-B%d%s" % (Hh, r0, r1, kind, B, "" if part is None else "-p%d" % part),
-                                "fn": "assign", "timeout": T,
+                                "fn": "assign", "timeout": T if part is None else T + 90, "cost": 1 if part is None else 10,
                                 "params": {"H": Hh, "r0": r0, "r1": r1, "kind": kind, "B": B, "part": part}})
     for K in (0, 1, 2):
         for bk in ("str", "fmt"):
